@@ -110,6 +110,7 @@ func (tr *tokenReader) Next() bool {
 		return true
 	}
 	// find all byte-driven tokens
+	errsBefore := len(tr.errs)
 	tk, ok := tr.tree.findFirst(tr)
 	if len(tr.errs) != 0 {
 		lastErr := tr.errs[len(tr.errs)-1]
@@ -128,6 +129,10 @@ func (tr *tokenReader) Next() bool {
 		}
 		tr.setNextToken(tk)
 		return true
+	}
+	if len(tr.errs) > errsBefore {
+		// the reader failed; there may be no byte to unread
+		return false
 	}
 	tr.unreadByte()
 
@@ -216,7 +221,11 @@ func (tr *tokenReader) nextIdent(firstRune rune) bool {
 
 func (tr *tokenReader) skipFollowingWhitespace() {
 	for {
-		b, _ := tr.readByte()
+		b, err := tr.readByte()
+		if err != nil && err != io.EOF {
+			tr.addError(err)
+			return
+		}
 		switch b {
 		case '\n':
 			tr.loc.incLine()
